@@ -12,6 +12,7 @@ BCAST = 0xffffffffffff
 STP = 0x0180c2000000
 LLDP_MC = 0x0180c200000e
 PAUSE = 0x0180c2000001
+FILTER_LAST = 0x0180c200000f       # last address of the bridge-filtered block
 NOT_FILTERED_MC = 0x0180c2000010      # first address after the bridge-filtered block
 IP_MC = 0x01005e000001
 LLDP_TYPE = 0x88cc
@@ -63,7 +64,7 @@ class C11(Check):
     driver = "drv_c11"
     theorems = ["Pox.C11.reachable_inv", "Pox.C11.init_inv", "Pox.C11.no_stuck", "Pox.C11.no_echo_no_dup", "Pox.C11.unknown_floods",
                 "Pox.C11.buffers_drain", "Pox.C11.buffers_drain_history", "Pox.C11.known_dst", "Pox.C11.known_dst_fresh_partial",
-                "Pox.C11.stale_only_by_cached_hit", "Pox.C11.miss_refreshes", "Pox.C11.filtered", "Pox.C11.propagate_inv",
+                "Pox.C11.stale_only_by_cached_hit", "Pox.C11.miss_refreshes", "Pox.C11.filtered", "Pox.C11.ideal_when_current", "Pox.C11.propagate_inv",
                 "Pox.C11.known_dst_fresh_defect"]
     anchors = [("pox/forwarding/l2_learning.py", 94, 174), ("pox/openflow/libopenflow_01.py", 2314, 2354),
                ("pox/openflow/libopenflow_01.py", 3585, 3608)]
@@ -247,7 +248,7 @@ class C11(Check):
         # every kind of destination / ethertype, transparent and not, truncated packet-ins, nonexistent port
         for tr in (False, True):
             for bufs in (0, 1):
-                cases.append(one([rx(2, B, A), rx(1, A, STP), rx(1, A, LLDP_MC, kind="lldp", key=0), rx(1, A, B, kind="lldp", key=0), rx(1, A, PAUSE),
+                cases.append(one([rx(2, B, A), rx(1, A, STP), rx(1, A, LLDP_MC, kind="lldp", key=0), rx(1, A, B, kind="lldp", key=0), rx(1, A, PAUSE), rx(1, A, FILTER_LAST),
                                   rx(1, A, NOT_FILTERED_MC), rx(1, A, IP_MC), rx(1, A, B, kind="raw", key=0), rx(1, A, B, kind="arp"), rx(1, A, B, pay=100),
                                   rx(2, B, A, pay=101), rx(1, A, B, pay=100), rx(7, A, B), rx(0, A, B), rx(1, A, B, kind="lldp", key=0)], ports=4, bufs=bufs, tr=tr))
         # expiry boundaries: idle 10 s (strict >), hard 30 s, refresh by traffic, late sweep
@@ -302,7 +303,7 @@ class C11(Check):
                 if rng.random() < 0.15:
                     loc[rng.choice(hosts)] = rng.choice(free)          # a host moves
                 src = rng.choice(hosts)
-                dst = rng.choice(hosts + hosts + [BCAST, STP, LLDP_MC, PAUSE, IP_MC, NOT_FILTERED_MC, 0xfe])
+                dst = rng.choice(hosts + hosts + [BCAST, STP, LLDP_MC, PAUSE, FILTER_LAST, IP_MC, NOT_FILTERED_MC, 0xfe])
                 kind = rng.choice(["udp", "udp", "udp", "udp", "arp", "arp", "lldp", "raw"])
                 key = rng.randint(1, nkeys) if kind in ("udp", "arp") else 0
                 sw, port = loc[src]
@@ -314,7 +315,7 @@ class C11(Check):
         if tier == "thorough":
             for c in self._exhaustive("thorough"):
                 yield c
-        for _ in range(120 if tier == "quick" else 3000):
+        for _ in range(300 if tier == "quick" else 3000):
             yield self.random_case(rng)
 
     def search_cases(self, rng, tier):
@@ -342,7 +343,9 @@ class C11(Check):
                 steps.append({"k": "rx", "arr": [{"sw": a["sw"], "port": a["port"], "pin": a["pin"], "stuck": 0, "out": a["out"], "flows": a["flows"],
                                                  "bufs": a["bufs"]} for a in st["arr"]]})
             elif st["k"] == "sweep":
-                steps.append({"k": "sweep", "flows": st["flows"]})
+                d = {"k": "sweep", "flows": st["flows"]}
+                if st["noise"]: d["noise"] = st["noise"]        # a sweep that emits frames or packet-ins has no model counterpart
+                steps.append(d)
             else:
                 steps.append(st)
         return {"steps": steps}
@@ -359,9 +362,6 @@ class C11(Check):
         via_flow = [dict() for _ in range(nsw)]    # mac -> True when its most recent arrival was forwarded by a cached flow (no packet-in)
         if len(obs["steps"]) != len(case["ops"]): return "harness: step count", "harness"
         for op, st in zip(case["ops"], obs["steps"]):
-            if op["op"] == "sweep":
-                if st["noise"]: return "a sweep emitted frames or packet-ins", "sweep-noise"
-                continue
             if op["op"] != "rx": continue
             src, dst, et = op["src"], op["dst"], etype_of(op["kind"])
             for a in st["arr"]:
